@@ -123,6 +123,11 @@ theorem C16_roundtrip_any_v6 (ip : List Nat) (port flow scope : Nat)
       rd16be, rd32le, AF_INET, AF_INET6]
     refine ⟨by omega, by omega, by omega⟩
 
+theorem initUnix_ge (st : List Nat) (len : Nat) (h : 2 ≤ len) :
+    initUnix st len = initUnixCore st len := by
+  have : ¬ len < 2 := by omega
+  simp [initUnix, this]
+
 /-- Unix path names read back for both lengths the kernel reports (with and
 without the terminating NUL). -/
 theorem C16_roundtrip_unix_path (p : List Nat) (h : WF (.path p)) :
@@ -141,7 +146,8 @@ theorem C16_roundtrip_unix_path (p : List Nat) (h : WF (.path p)) :
       have harith : 2 + (x :: xs).length + 1 - 2 = (x :: xs).length + 1 := by omega
       have htw : ((x :: xs) ++ zeros 1).takeWhile (· ≠ 0) = x :: xs :=
         takeWhile_append_zero (x :: xs) h0 []
-      simp only [initUnix, harith, hpre]
+      rw [initUnix_ge _ _ (by simp; omega)]
+      simp only [initUnixCore, harith, hpre]
       simp only [List.cons_append] at htw ⊢
       split
       · rename_i heq; simp at heq; exact absurd heq.1 hx
@@ -150,7 +156,8 @@ theorem C16_roundtrip_unix_path (p : List Nat) (h : WF (.path p)) :
       have hpre := unix_path_prefix (x :: xs) 0 (by omega)
       have harith : 2 + (x :: xs).length - 2 = (x :: xs).length + 0 := by omega
       have htw := takeWhile_all (x :: xs) h0
-      simp only [initUnix, harith, hpre]
+      rw [initUnix_ge _ _ (by simp)]
+      simp only [initUnixCore, harith, hpre]
       simp only [zeros, List.replicate_zero, List.append_nil]
       split
       · rename_i heq; simp at heq; exact absurd heq.1 hx
@@ -163,7 +170,8 @@ theorem C16_roundtrip_unix_abstract (n : List Nat) (h : WF (.abstr n)) :
   simp [kernelLens] at hlen
   subst hlen
   have h' : n.length ≤ 107 := h
-  simp only [initUnix, storageUnix, le16]
+  rw [initUnix_ge _ _ (by omega)]
+  simp only [initUnixCore, storageUnix, le16]
   have hdrop : (([AF_UNIX % 256, AF_UNIX / 256 % 256] ++ [0] ++ n ++ zeros (107 - n.length)).drop 2)
       = 0 :: (n ++ zeros (107 - n.length)) := by simp
   rw [hdrop]
@@ -175,13 +183,16 @@ theorem C16_roundtrip_unix_abstract (n : List Nat) (h : WF (.abstr n)) :
   have h3 : ¬ (n.length + 1 > 108) := by omega
   simp [fromAbstract, h3]
 
-/-- The unnamed Unix address reads back. -/
+/-- The unnamed Unix address reads back, from `getsockname`'s length 2 as well as from the
+length 0 `recvmsg` reports for a datagram of an unbound sender (before the `fix:` commit
+2945ba2 that length hit a debug assertion / underflowed the path length). -/
 theorem C16_roundtrip_unix_unnamed :
     ∀ len ∈ kernelLens .unnamed, initUnix (storageUnix .unnamed) len = .unnamed := by
   intro len hlen
   simp [kernelLens] at hlen
-  subst hlen
-  simp [initUnix, storageUnix, fromPathname]
+  rcases hlen with rfl | rfl
+  · simp [initUnix, initUnixCore, storageUnix, fromPathname]
+  · simp [initUnix]
 
 /-- The pointer/length pair handed to the kernel: the IP storages are exactly the family's
 structure (16 bytes `sockaddr_in`, 28 bytes `sockaddr_in6`); a Unix address is stored in a
@@ -223,10 +234,15 @@ theorem C16_kernel_sees_same_unix_address (a : Addr) (h : WF a)
 example : initUnix (storageUnix (.abstr [97, 98])) 110 ≠ .abstr [97, 98] := by decide
 
 /-- Reading back a Unix address depends only on the bytes the kernel reported:
-whatever lies beyond `len` in the caller's buffer is ignored. -/
+whatever lies beyond `len` in the caller's buffer is ignored (for `len < 2` nothing at all is
+read: the storage may be entirely uninitialised). -/
 theorem C16_unix_init_ignores_tail (st junk : List Nat) (len : Nat)
-    (h : len ≤ st.length) (h2 : 2 ≤ len) :
+    (h : len ≤ st.length) :
     initUnix (st.take len ++ junk) len = initUnix st len := by
+  by_cases h2 : len < 2
+  · simp [initUnix, h2]
+  have h2 : 2 ≤ len := by omega
+  rw [initUnix_ge _ _ h2, initUnix_ge _ _ h2]
   have : ((st.take len ++ junk).drop 2).take (len - 2) = (st.drop 2).take (len - 2) := by
     rw [List.drop_append_of_le_length (by simp; omega)]
     rw [List.take_append_of_le_length (by simp; omega)]
@@ -234,7 +250,7 @@ theorem C16_unix_init_ignores_tail (st junk : List Nat) (len : Nat)
     rw [List.take_take]
     congr 1
     omega
-  simp only [initUnix, this]
+  simp only [initUnixCore, this]
 
 /-! ### Non-vacuity: concrete addresses meet the hypotheses and round-trip -/
 
